@@ -314,6 +314,30 @@ def write (W : Nat → Option Nat) (cb : CbPolicy) (p : Parser) (bytes : List Na
 
 def flush (p : Parser) : M Parser := pure p
 
+/-- `io::Write::write_all` — a PROVIDED method of the trait, which the crate does not override:
+`while !buf.is_empty() { n = self.write(buf)?; buf = &buf[n..] }`; `write` takes the whole buffer, so
+there is at most one call -/
+def writeAll (W : Nat → Option Nat) (cb : CbPolicy) (p : Parser) (bytes : List Nat) : M Parser :=
+  if bytes.isEmpty then pure p else do
+    let (p', _) ← p.write W cb bytes
+    pure p'
+
+/-- `io::Write::write_vectored` — also provided, not overridden: `write` of the first non-empty slice
+(of an empty buffer when all are empty); returns how many bytes were taken -/
+def writeVectored (W : Nat → Option Nat) (cb : CbPolicy) (p : Parser) (slices : List (List Nat)) :
+    M (Parser × Nat) :=
+  p.write W cb ((slices.find? (fun s => !s.isEmpty)).getD [])
+
+/-- a caller that offers the slices not yet taken to `write_vectored` until all are taken (what
+`write_all_vectored` does): one `write` per non-empty slice, in order -/
+def writeVectoredAll (W : Nat → Option Nat) (cb : CbPolicy) (p : Parser) : List (List Nat) → M Parser
+  | [] => pure p
+  | s :: rest =>
+    if s.isEmpty then writeVectoredAll W cb p rest
+    else do
+      let (p', _) ← p.writeVectored W cb (s :: rest)
+      writeVectoredAll W cb p' rest
+
 def screen (p : Parser) : Screen := p.ws.screen
 
 end Parser
